@@ -22,6 +22,7 @@ from __future__ import annotations
 import random
 
 from happysimulator.components.datastore.kv_store import KVStore
+from happysimulator.components.datastore.replicated_store import ConsistencyLevel, ReplicatedStore
 from happysimulator.components.network.link import NetworkLink
 from happysimulator.components.network.network import Network
 from happysimulator.components.replication.chain_replication import ChainNode, ChainNodeRole
@@ -128,6 +129,20 @@ class Probe(Entity):
 
     def handle_event(self, event):
         event.context["metadata"]["fn"]()
+        return None
+
+
+class RSClient(Entity):
+    """Client of a ReplicatedStore: every Write event runs one put() generator (they overlap)."""
+
+    def __init__(self, name, rs):
+        super().__init__(name)
+        self.rs = rs
+
+    def handle_event(self, event):
+        md = event.context["metadata"]
+        ok = yield from self.rs.put(md["key"], md["value"])
+        md["reply_future"].resolve({"status": "ok" if ok else "failed"})
         return None
 
 
@@ -258,6 +273,13 @@ class World:
                 for b in range(1, n + 1):
                     if a != b:
                         self.link(a, b)
+        elif self.proto == "rs":
+            # n replica KVStores behind one ReplicatedStore; node n+1 is the client entity
+            reps = [self.mk_store(i) for i in range(1, n + 1)]
+            level = {"one": ConsistencyLevel.ONE, "quorum": ConsistencyLevel.QUORUM,
+                     "all": ConsistencyLevel.ALL}[sc.get("level", "quorum")]
+            self.rs = ReplicatedStore("rs", replicas=reps, read_consistency=level, write_consistency=level)
+            self.nodes[n + 1] = logged(RSClient)(f"n{n + 1}", self.rs)
         else:
             raise ValueError(self.proto)
         for i, nd in self.nodes.items():
@@ -383,6 +405,8 @@ class World:
 
     def run(self):
         ents = [self.net, self.probe, *self.stores.values(), *self.nodes.values()]
+        if self.proto == "rs":
+            ents.append(self.rs)
         sim = Simulation(entities=ents)
         state = random.getstate()
         err = None
@@ -411,9 +435,18 @@ class World:
 # ---------------------------------------------------------------------------
 # raw log -> ReplTrace events
 
-def _ev(e, n=0, w=0, k=0, m="", x=0, st=(), snap=(), vc=()):
-    return {"e": e, "n": n, "w": w, "k": k, "m": m, "x": x, "st": list(st), "snap": [list(r) for r in snap],
-            "vc": list(vc)}
+def _ev(e, n=0, w=0, k=0, m=None, x=0, st=None, snap=None, vc=None):
+    """One ReplTrace event record; fields a record kind never reads are left out (compact batches)."""
+    r = {"e": e, "n": n, "w": w, "k": k, "x": x}
+    if m is not None:
+        r["m"] = m
+    if st is not None:
+        r["st"] = list(st)
+    if snap is not None:
+        r["snap"] = [list(row) for row in snap]
+    if vc is not None:
+        r["vc"] = list(vc)
+    return r
 
 
 def _k(s):
